@@ -361,6 +361,12 @@ func (c *Ctx) callFunc(o *types.Func, recv Value, args []Value, e *ast.CallExpr)
 	o = o.Origin()
 	c.atCall(e, args)
 	if fi := x.w.FuncOf(o); fi != nil {
+		// usage contracts: another package may describe this function by an assumed (extern) contract
+		if fi.Pkg != x.pkg {
+			if sp := c.findExtern(fi.Pkg.Name + "." + fi.Key); sp != nil {
+				return c.externCall(fi.Pkg.Name+"."+fi.Key, sp, resultType(o), recv, args, e)
+			}
+		}
 		if fi.Spec != nil && !fi.Spec.Inline && fi.Spec.Trusted == "" && !c.spec {
 			return c.modularCall(fi, recv, args, e)
 		}
@@ -587,6 +593,14 @@ func (c *Ctx) havocList(locs []string, recvVars map[string]Value) {
 	}
 	for _, l := range locs {
 		for _, key := range x.expandLoc(l, c.st) {
+			if isSpecialKey(key) {
+				srt := SInt
+				if key[0] == 'H' {
+					srt = ArraySort(SRef, SInt)
+				}
+				c.st.store[key] = Scalar(Fresh("havoc."+key[3:], srt), nil)
+				continue
+			}
 			if strings.HasPrefix(key, "G:") {
 				g := c.pkg.Contracts.GhostIdx[key[2:]]
 				c.st.store[key] = c.x.ghostShape(g, "havoc.ghost."+g.Name, true)
@@ -600,6 +614,21 @@ func (c *Ctx) havocList(locs []string, recvVars map[string]Value) {
 // expandLoc turns a modifies pattern into store keys.
 func (x *Exec) expandLoc(l string, st *State) []string {
 	l = strings.TrimSpace(l)
+	if strings.HasPrefix(l, "$") {
+		switch l {
+		case "$clock":
+			return []string{clockKey}
+		case "$chan.len":
+			return []string{chanLenKey}
+		case "$chan.val":
+			return []string{chanValKey}
+		case "$chan.cap":
+			return []string{chanCapKey}
+		case "$timer.deadline":
+			return []string{deadlineKey}
+		}
+		panic(engineErr("unknown model location %q", l))
+	}
 	if g, ok := x.contracts().GhostIdx[l]; ok {
 		return []string{"G:" + g.Name}
 	}
@@ -838,6 +867,11 @@ func (c *Ctx) intrinsic(o *types.Func, recv Value, args []Value, e *ast.CallExpr
 		return Scalar(r, types.Typ[types.Bool])
 	case "time.Since", "time.Now", "time.Until", "time.After", "time.Sleep", "time.Tick", "time.AfterFunc", "time.NewTicker":
 		c.wallClock(full, e)
+		if c.x.contracts().clockTags() == nil {
+			if v, ok := c.clockIntrinsic(full, args, rt); ok {
+				return v
+			}
+		}
 		return c.arbitrary("wallclock."+full, rt)
 	case "time.NewTimer":
 		c.wallClock(full, e)
